@@ -623,9 +623,24 @@ func c19Worker(tier string, shard, n int) hWorkerOut {
 			net := world.NewNet()
 			net.Serve(env.u, "good", good)
 			net.Serve(env.u2, "good", good)
+			// the process has loaded (and cleaned up) another configuration before, in the same syntax, in which every
+			// option has a valid value other than its default: nothing of it may show in the configuration under test
+			pred := make(c19Conf, len(c19Dims))
+			pred[dMode], pred[dStorage], pred[dInterval], pred[dSigMode], pred[dURL], pred[dFile], pred[dTrusted] = 4, 1, 1, 3, 1, 1, 1
+			pred[dFetch], pred[dStrict], pred[dCache], pred[dAIA], pred[dResponder] = 2, 1, 1, 1, 1
+			os.RemoveAll(env.dir)
+			os.MkdirAll(env.dir, 0755)
+			if p := c19Load("caddyfile", []byte(pred.renderCaddyfile(env))); p.Err != "" {
+				panic("c19: the predecessor configuration does not load (caddyfile): " + p.Err)
+			}
 			os.RemoveAll(env.dir)
 			os.MkdirAll(env.dir, 0755)
 			effC = c19Load("caddyfile", []byte(c.renderCaddyfile(env)))
+			os.RemoveAll(env.dir)
+			os.MkdirAll(env.dir, 0755)
+			if p := c19Load("json", pred.renderJSON(env)); p.Err != "" {
+				panic("c19: the predecessor configuration does not load (json): " + p.Err)
+			}
 			os.RemoveAll(env.dir)
 			os.MkdirAll(env.dir, 0755)
 			effJ = c19Load("json", c.renderJSON(env))
